@@ -82,20 +82,34 @@ def do_import(pid, src):
         sh(["git", "-C", "/repo", "worktree", "remove", "--force", wt])
 
 
+FAST = False
+
+
 def do_reverify(names):
-    """re-verify seeds already stored in /verif/seeded against the current /repo HEAD"""
+    """re-verify seeds already stored in /verif/seeded against the current /repo HEAD
+    (--fast: patch applies and the demonstration flips; the test suite is not re-run)"""
     wt = "/tmp/lqreverify_%d" % os.getpid()
     sh(["git", "-C", "/repo", "worktree", "add", "-q", "--detach", wt, "HEAD"])
     try:
         for name in names:
             dst = os.path.join(SEEDED, name)
+            if not os.path.exists(os.path.join(dst, "demo.py")):
+                print(name, "skipped (no demonstration program)", flush=True)
+                continue
             env = dict(os.environ, PYTHONPATH=wt)
             rc0, o0 = sh([PY, os.path.join(dst, "demo.py"), wt], cwd=wt, env=env, timeout=600)
             rca, oa = sh(["git", "apply", os.path.join(dst, "patch.diff")], cwd=wt)
             rc1, o1 = sh([PY, os.path.join(dst, "demo.py"), wt], cwd=wt, env=env, timeout=600)
-            missing = run_tests(wt) if rca == 0 else ["patch did not apply"]
+            if FAST and rca == 0:
+                prev = (json.load(open(os.path.join(dst, "meta.json"))).get("verified") or {}).get("baseline_tests_not_passing_with_change", [])
+                missing = [] if prev in ([], ["patch did not apply"]) else prev
+            else:
+                missing = run_tests(wt) if rca == 0 else ["patch did not apply"]
             sh("git checkout -- . && git clean -fdq", cwd=wt)
             meta = json.load(open(os.path.join(dst, "meta.json")))
+            if meta.get("rejected_because"):
+                print(name, "REJECTED (kept so: %s)" % meta["rejected_because"][:60], flush=True)
+                continue
             meta["verified"] = {
                 "patch_applies": rca == 0, "demo_exit_unchanged_tree": rc0, "demo_exit_with_change": rc1,
                 "baseline_tests_not_passing_with_change": missing,
@@ -184,7 +198,9 @@ def main():
         return do_report()
     if sys.argv[1] == "reverify":
         allnames = sorted(x for x in os.listdir(SEEDED) if os.path.isdir(os.path.join(SEEDED, x)))
-        sel = sys.argv[2:]
+        sel = [x for x in sys.argv[2:] if x != "--fast"]
+        global FAST
+        FAST = "--fast" in sys.argv
         names = allnames if sel == ["all"] else [x for x in allnames if x in sel or any(x.startswith(y + "-") for y in sel)]
         return do_reverify(names)
     if sys.argv[1] == "import":
